@@ -3,7 +3,7 @@
 /* C07.update_base_hostname: host := input, "//" added if there was no authority; nothing else changes */
 void harness(void) {
   EDITOR_PROLOGUE
-  sv_t input; input.n = nondet_size(); MAKE_SV(input);
+  ND_SV(input);
   __CPROVER_assume(IN_CLASS(input, '@', '/', '?', '#', '\\'));
   __CPROVER_assume((input.n > 0 && input.p[0] == '[') || IN_CLASS(input, ':', ':', ':', ':', ':'));
   __CPROVER_assume(!v0.dash_dot && !old.base.has_opaque_path);          /* call sites: dash-dot is deleted by the caller right after */
